@@ -283,7 +283,14 @@ def run_cross5(case):
     return session.run_cross_resume(case, lambda: [schedule_monitor("sched", resumed=True)])
 
 
-KINDS = {"cross": run_cross5, "duo": run_duo, "edge": run_edge, "stateful": run_stateful, "block": run_block, "rw1": run_rw1, "first": run_first, "pipe": run_pipe, "pipe1": run_pipe1}
+def run_session5(case):
+    """One sampler object through the longer operation patterns (save / load / complete run / aborted iteration / pickle round trip / deep copy,
+    incl. the lockstep copy-versus-original step): every reweighting transition satisfies the schedule oracle."""
+    from mc import session
+    return session.run_case(case, lambda: [schedule_monitor("sched")], oracle=None, key_pred=lambda k: k.startswith("sched:") or k.startswith("session:copy") or k.startswith("session:deepcopy"))
+
+
+KINDS = {"session": run_session5, "cross": run_cross5, "duo": run_duo, "edge": run_edge, "stateful": run_stateful, "block": run_block, "rw1": run_rw1, "first": run_first, "pipe": run_pipe, "pipe1": run_pipe1}
 
 FACTORS = [
     ("sample", ["tpcn", "rwm"]),
@@ -323,6 +330,7 @@ def plan(ctx):
     dcfg = dict(n_particles=8, d=1, ess_ratio=1.0, n_total=10 ** 6, eval="scalar", clustering=False)
     duo = [{"kind": "duo", "cfg": dict(dcfg, vv=vv), "base": ctx.seed, "depth": 5 if th else 4, "shard": [sh, 8]} for vv in (None, 0.5) for sh in range(8)]
     ctx.explore("two-samplers-interleaved", duo)
+    ctx.explore("session-patterns", [{"kind": "session", "cfg": dict(dcfg, vv=vv, ess_ratio=er), "base": ctx.seed, "depth": 9, "patterns": [sh, 4]} for vv, er in ((None, 1.0), (0.5, 2.0)) for sh in range(4)])
     from mc import session as _s2
     ctx.explore("resume-with-other-options", [{"kind": "cross", "cfg": dict(n_particles=16, d=2, n_total=48, eval="scalar", clustering=False), "pair": list(pr), "base": ctx.seed + b} for pr in _s2.CROSS for b in ((0, 5) if th else (0,))])
     strength = 3 if th else 2
